@@ -24,6 +24,8 @@ enum Ctxt {
     DefaultPool,
     BatchInner,
     Async,
+    /// default pool; the wide stage contains a batch whose own inner stages are narrow
+    DefaultPoolNarrowBatch,
 }
 
 /// w pairwise compatible systems (distinct write slots, shared read slot), optionally preceded by
@@ -73,7 +75,8 @@ fn find_wide(l: &Layout, w: usize) -> bool {
 
 fn case(rng: &mut Rng, rep: &mut Report, case_no: u64, reps: usize) {
     let w = rng.range(2, 16);
-    let ctxt = *rng.pick(&[Ctxt::UserPool, Ctxt::UserPool, Ctxt::DefaultPool, Ctxt::BatchInner, Ctxt::Async]);
+    let ctxt = *rng.pick(&[Ctxt::UserPool, Ctxt::UserPool, Ctxt::DefaultPool, Ctxt::BatchInner, Ctxt::Async, Ctxt::DefaultPoolNarrowBatch]);
+    let w = if ctxt == Ctxt::DefaultPoolNarrowBatch { w.min(12) } else { w };
     let extra = if ctxt == Ctxt::BatchInner { 1 } else { 0 };
     let pool_size = if rng.chance(1, 2) { w + extra } else { 16usize.max(w + extra) };
     let mut uid = 1u32;
@@ -93,13 +96,25 @@ fn case(rng: &mut Rng, rep: &mut Report, case_no: u64, reps: usize) {
                 ],
             }
         }
+        Ctxt::DefaultPoolNarrowBatch => {
+            // w-1 compatible systems and one batch (inner: one or two systems) side by side
+            let mut items = wide_level(&mut uid, w - 1, rng, false, 0);
+            let bu = uid;
+            uid += 1;
+            let narrow = rng.range(1, 2);
+            let inner = Plan { items: wide_level(&mut uid, narrow, rng, false, 5) };
+            let at = rng.below(items.len() + 1);
+            items.insert(at, Item::Batch(BatchSpec { uid: bu, name: "narrow batch".into(), deps: vec![], ctl_menu: 0, k: 1, multi: rng.chance(1, 3), time: 3, inner }));
+            Plan { items }
+        }
         _ => Plan { items: wide_level(&mut uid, w, rng, prefix, 0) },
     };
     rep.evaluations += 1;
     rep.metric(&format!("context_{:?}", ctxt), 1);
     rep.metric(&format!("width_{}", w), 1);
     let pool: Pool = make_pool(pool_size);
-    let use_pool = if ctxt == Ctxt::DefaultPool { None } else { Some(&pool) };
+    let default_pool = matches!(ctxt, Ctxt::DefaultPool | Ctxt::DefaultPoolNarrowBatch);
+    let use_pool = if default_pool { None } else { Some(&pool) };
     // twin for the layout
     let twin = match build(&plan, Some(&pool), pool_size, 16) {
         Ok(t) => t,
@@ -189,7 +204,7 @@ fn case(rng: &mut Rng, rep: &mut Report, case_no: u64, reps: usize) {
     rep.metric_max("rendezvous_ms_per_dispatch_x1000", (t0.elapsed().as_micros() as i64) / reps.max(1) as i64);
     if gave_up > 0 {
         // differential control on an equivalent pool
-        let ctl_pool: Pool = if ctxt == Ctxt::DefaultPool {
+        let ctl_pool: Pool = if default_pool {
             Arc::new(rayon::ThreadPoolBuilder::new().build().expect("default pool"))
         } else {
             pool.clone()
@@ -241,7 +256,7 @@ pub fn run(args: &Args) -> i32 {
             break;
         }
         let mut rng = Rng::new(args.case_seed(c));
-        case(&mut rng, &mut rep, c, reps);
+        guard_case(&mut rep, c, |rep| case(&mut rng, rep, c, reps));
     }
     rep.finish();
     0
